@@ -17,6 +17,8 @@ import YashModel.Exec.Refine
 import YashModel.Exec.FuelMono
 import YashModel.Exec.SearchCompose
 import YashModel.Exec.BuiltinLemmas
+import YashModel.Exec.LawLemmas
+import YashModel.Exec.Identify
 namespace YashModel.Exec
 
 /-! ### ★ stack_balanced: every push has its pop on every path -/
@@ -1122,5 +1124,469 @@ theorem report_tables (stack : List Frame) :
   | some b => cases b <;> simp
 
 end Wave3
+
+/-! ### wave 3, second half: algebraic laws of the command language (helper lemmas: Exec/LawLemmas.lean)
+
+Each law equates two *different programs* on the transcribed executor, for all sub-commands and all states: the
+frame stacks they build differ (an extra `Condition` frame, a group's extra command boundary), so none of them is an
+unfolding of one definition — they go through `exec_refines_spec` (the stack matters only through its context),
+`stack_balanced_*` and `fuel_irrelevant`.  Fuel: the larger program is given the extra fuel its nesting consumes; the
+hypothesis `… ≠ outOfFuel` says that the smaller one terminates.  Hypotheses of the form `….trapDue = none` say that
+no action of a caught signal is waiting at the one command boundary the regrouped program has and the other lacks. -/
+
+section Laws
+
+/-- `{ c; }` ≡ `c`: a brace group around one command is that command (same state, trace, `$?`, divert), the only
+    thing the group adds being one more point at which the action of a caught signal may run — nothing when none
+    is due in the state `c` leaves -/
+theorem group_is_command (n : Nat) (s : St) (c : Cmd) (ht : (execCmd n s c).1.trapDue = none) :
+    execCmd (n+5) s (.group (wrap c)) = execCmd n s c := by
+  simp only [execCmd]
+  exact execList_wrap n s c ht
+
+/-- `elif` is `else if`: the tail `elif c2; then b2; …` of an `if` runs exactly as the command
+    `if c2; then b2; …; fi` -/
+theorem elifs_is_if (f : Nat) (s : St) (c b : List Item) (rest : List (List Item × List Item)) (els : Option (List Item)) :
+    execElifs f s ((c, b) :: rest) els = execCmd f s (.ifc c b rest els) := by
+  cases f with
+  | zero => simp [execElifs, execCmd]
+  | succ f => simp only [execElifs, execCmd]
+
+/-- `if c1; then b1; elif c2; then b2; …; fi` ≡ `if c1; then b1; else if c2; then b2; …; fi; fi` for all
+    conditions, bodies, further `elif`s and `else` parts and every state: whenever the flat form terminates, the
+    nested form (given the fuel its extra nesting takes) ends in the same state with the same trace, `$?` and divert
+    — provided no caught signal's action is due when the inner `if` ends (the nested form has one more command
+    boundary there) -/
+theorem if_elif_is_nested (f : Nat) (s : St) (c1 b1 c2 b2 : List Item)
+    (rest : List (List Item × List Item)) (els : Option (List Item))
+    (hterm : (execCmd (f+1) s (.ifc c1 b1 ((c2, b2) :: rest) els)).2 ≠ .outOfFuel)
+    (ht : (execCmd f (execList f (s.push .condition) c1).1.pop (.ifc c2 b2 rest els)).1.trapDue = none) :
+    execCmd (f+6) s (.ifc c1 b1 [] (some (wrap (.ifc c2 b2 rest els)))) =
+      execCmd (f+1) s (.ifc c1 b1 ((c2, b2) :: rest) els) := by
+  simp only [execCmd] at hterm ⊢
+  have hx : (execList f (s.push .condition) c1).2 ≠ .outOfFuel := by
+    intro h
+    apply hterm
+    generalize execList f (s.push .condition) c1 = x at h
+    obtain ⟨s1, r⟩ := x
+    simp only at h; subst h; rfl
+  rw [show f + 5 = f + 5 from rfl, lift_list f 5 _ _ hx]
+  generalize execList f (s.push .condition) c1 = x at hterm ht ⊢
+  obtain ⟨s1, r⟩ := x
+  cases r with
+  | outOfFuel => rfl
+  | break_ d => rfl
+  | continue_ =>
+    simp only at hterm ht ⊢
+    by_cases h0 : s1.pop.status = 0
+    · simp only [h0, if_true] at hterm ⊢
+      exact lift_list f 5 _ _ hterm
+    · simp only [h0, if_false] at hterm ⊢
+      simp only [execElifs]
+      rw [execList_wrap f s1.pop _ ht, elifs_is_if]
+
+/-- `! { ! p; }`: the pipeline runs exactly as under a single `!` (errexit-exempt context, same trace, a divert
+    passes through unchanged) and the status is 0 iff `p`'s is 0, else 1 — negation touches nothing but the status,
+    twice -/
+theorem double_negation (n : Nat) (s : St) (cmds : List Cmd)
+    (ht : (execCommands n (s.push .condition) cmds).1.trapDue = none) :
+    execPipeline (n+6) s (.mk true [.group [.mk (.mk true cmds) []]]) =
+      match execCommands n (s.push .condition) cmds with
+      | (s1, .continue_) => ({ s1.pop with status := if s1.pop.status = 0 then 0 else 1 }, .continue_)
+      | (s1, r) => (s1.pop, r) := by
+  have hpp : (s.push .condition).push .condition =
+      { s.push .condition with stack := .condition :: .condition :: s.stack } := rfl
+  have hcc := cmds_ctx_only n (s.push .condition) (.condition :: .condition :: s.stack) cmds
+    (by simp only [St.push]; exact ctxOf_cond_cond s.stack)
+  have hb := (bal n).cmds (s.push .condition) cmds
+  simp only [execPipeline, execCommands, execCmd, execList, execItem, Bool.not_true, Bool.false_eq_true, if_false,
+    hpp, hcc]
+  generalize execCommands n (s.push .condition) cmds = x at ht hb ⊢
+  obtain ⟨t, r⟩ := x
+  simp only [St.push] at hb
+  simp only at ht hb ⊢
+  cases r with
+  | outOfFuel => simp [pollWith, St.pop, hb]
+  | break_ d =>
+    rw [pollWith_none]
+    · simp [St.pop, hb]
+    · simpa [St.trapDue, St.pop, hb] using ht
+  | continue_ =>
+    simp only
+    rw [pollWith_none]
+    · simp [St.pop, hb]
+      split <;> simp_all
+    · simpa [St.trapDue, St.pop, hb] using ht
+
+/-- `&&` and `||` have equal precedence and associate to the left: `a op1 b op2 c` ≡ `{ a op1 b; } op2 c` for all four
+    combinations of operators, all pipelines and every state — same final state (trace, `$?`, options, functions),
+    same divert — whenever the flat list terminates, provided no caught signal's action is due when the group ends
+    (the group is one more command boundary) -/
+theorem andor_left_assoc (n : Nat) (s : St) (a b c : Pipeline) (op1 op2 : Bool)
+    (hterm : (execItem (n+3) s (.mk a [(op1, b), (op2, c)])).2 ≠ .outOfFuel)
+    (ht : (execItem (n+3) (s.push .condition) (.mk a [(op1, b)])).1.trapDue = none) :
+    execItem (n+8) s (.mk (.mk false [.group [.mk a [(op1, b)]]]) [(op2, c)]) =
+      execItem (n+3) s (.mk a [(op1, b), (op2, c)]) := by
+  have hpp : (s.push .condition).push .condition =
+      { s.push .condition with stack := .condition :: .condition :: s.stack } := rfl
+  have hcc := pipe_ctx_only (n+2) (s.push .condition) (.condition :: .condition :: s.stack) a
+    (by simp only [St.push]; exact ctxOf_cond_cond s.stack)
+  have hb := (bal (n+2)).pipe (s.push .condition) a
+  -- the group's body
+  have hinner : execItem (n+3) (s.push .condition) (.mk a [(op1, b)]) =
+      match execPipeline (n+2) (s.push .condition) a with
+      | (u1, .continue_) => if (u1.status = 0) = op1 then execPipeline (n+1) u1 b else (u1, .continue_)
+      | (u1, r) => (u1, r) := by
+    rw [execItem_andor, hpp, hcc]
+    generalize execPipeline (n+2) (s.push .condition) a = x at hb ⊢
+    obtain ⟨u1, r⟩ := x
+    simp only [St.push] at hb
+    have hu : ({ u1 with stack := .condition :: .condition :: s.stack } : St).pop = u1 := by
+      cases u1; simp_all [St.pop]
+    cases r with
+    | continue_ => simp only; rw [execAndOrRest_last, hu]
+    | break_ d => simp only [hu]
+    | outOfFuel => simp only [hu]
+  rw [hinner] at ht
+  rw [execItem_andor] at hterm
+  rw [execItem_andor, execPipeline_group, hinner, execItem_andor]
+  generalize execPipeline (n+2) (s.push .condition) a = x at hb ht hterm ⊢
+  obtain ⟨u1, r⟩ := x
+  cases r with
+  | outOfFuel => exact absurd rfl hterm
+  | break_ d =>
+    simp only at ht ⊢
+    rw [pollWith_none _ _ _ ht]
+  | continue_ =>
+    simp only at ht hterm ⊢
+    rw [execAndOrRest_more] at hterm ⊢
+    by_cases h1 : (u1.status = 0) = op1
+    · simp only [h1, if_true] at ht hterm ⊢
+      generalize execPipeline (n+1) u1 b = y at ht hterm ⊢
+      obtain ⟨u2, r2⟩ := y
+      cases r2 with
+      | outOfFuel => exact absurd rfl hterm
+      | break_ d => simp only at ht ⊢; rw [pollWith_none _ _ _ ht]
+      | continue_ =>
+        simp only at ht hterm ⊢
+        rw [pollWith_none _ _ _ ht]
+        simp only
+        simp only [execAndOrRest_last] at hterm ⊢
+        by_cases h2 : (u2.pop.status = 0) = op2
+        · simp only [h2, if_true] at hterm ⊢
+          exact lift_pipe n 6 _ _ hterm
+        · simp only [h2, if_false]
+    · simp only [h1, if_false] at ht hterm ⊢
+      rw [pollWith_none _ _ _ ht]
+      simp only
+      simp only [execAndOrRest_last] at hterm ⊢
+      by_cases h2 : (u1.pop.status = 0) = op2
+      · simp only [h2, if_true] at hterm ⊢
+        exact lift_pipe n 6 _ _ hterm
+      · simp only [h2, if_false]
+
+/-- `until p; do body; done` ≡ `while ! p; do body; done` for every pipeline `p`, every state and every fuel: same
+    iterations, same trace, same final state and `$?`, same divert.  The one thing the two differ in is the `$?` the
+    body *starts* with (`p`'s own non-zero status under `until`, 0 after `! p`), so the law is stated for bodies that
+    do not read the `$?` they start with (`hbody`; every body whose first command sets `$?` qualifies:
+    `list_after_st`) -/
+theorem until_is_while_not (f : Nat) (s : St) (cmds : List Cmd) (body : List Item)
+    (hbody : ∀ (g : Nat) (t : St) (k : Nat), (execList g t body).2 ≠ .outOfFuel →
+      execList g { t with status := k } body = execList g t body)
+    (hterm : (execCmd f s (.whileLoop true (condPos cmds) body)).2 ≠ .outOfFuel) :
+    execCmd f s (.whileLoop false (condNeg cmds) body) = execCmd f s (.whileLoop true (condPos cmds) body) := by
+  cases f with
+  | zero => simp [execCmd] at hterm
+  | succ f =>
+    rw [execCmd_while_post] at hterm ⊢
+    rw [execCmd_while_post]
+    rw [until_while_post cmds body hbody f (s.push .loop) 0 hterm]
+
+/-! non-vacuity of the laws -/
+
+/-- a list item made of one command -/
+def itemOf (c : Cmd) : Item := .mk (.mk false [c]) []
+
+/-- not vacuous: `if st 1; then probe 1; elif st 0; then probe 2; fi` terminates, no signal is due, and both forms
+    trace probe 2 -/
+example :
+    (execCmd 11 {} (.ifc [itemOf (.st 1)] [itemOf (.probe 1)] [([itemOf (.st 0)], [itemOf (.probe 2)])] none)).2 ≠ .outOfFuel ∧
+    (execCmd 10 (execList 10 (({} : St).push .condition) [itemOf (.st 1)]).1.pop
+      (.ifc [itemOf (.st 0)] [itemOf (.probe 2)] [] none)).1.trapDue = none ∧
+    (execCmd 16 {} (.ifc [itemOf (.st 1)] [itemOf (.probe 1)] [] (some (wrap (.ifc [itemOf (.st 0)] [itemOf (.probe 2)] [] none))))).1.trace
+      = [(2, 0)] := by
+  refine ⟨by decide, rfl, by decide⟩
+
+/-- not vacuous: `st 1 && probe 1 || probe 2` (the `&&` side skipped, the `||` side run) and its grouped form -/
+example :
+    (execItem 8 {} (.mk (.mk false [.st 1]) [(true, .mk false [.probe 1]), (false, .mk false [.probe 2])])).2 ≠ .outOfFuel ∧
+    (execItem 8 (({} : St).push .condition) (.mk (.mk false [.st 1]) [(true, .mk false [.probe 1])])).1.trapDue = none ∧
+    (execItem 13 {} (.mk (.mk false [.group [.mk (.mk false [.st 1]) [(true, .mk false [.probe 1])]]])
+      [(false, .mk false [.probe 2])])).1.trace = [(2, 1)] := by
+  refine ⟨by decide, rfl, by decide⟩
+
+/-- not vacuous: `! { ! st 3; }` yields 1, `! { ! st 0; }` yields 0 -/
+example :
+    (execCommands 4 (({} : St).push .condition) [.st 3]).1.trapDue = none ∧
+    (execPipeline 10 {} (.mk true [.group [.mk (.mk true [.st 3]) []]])).1.status = 1 ∧
+    (execPipeline 10 {} (.mk true [.group [.mk (.mk true [.st 0]) []]])).1.status = 0 := by
+  refine ⟨rfl, by decide, by decide⟩
+
+/-- not vacuous: `until tick 0 0; do st 0; probe 1; break; done`: the condition fails, the body (it begins with
+    `st 0`, so `list_after_st` gives `hbody`) runs once and leaves the loop -/
+example :
+    let body := [itemOf (.st 0), itemOf (.probe 1), itemOf (.brk 1)]
+    (∀ (g : Nat) (t : St) (k : Nat), (execList g t body).2 ≠ .outOfFuel →
+      execList g { t with status := k } body = execList g t body) ∧
+    (execCmd 20 {} (.whileLoop true (condPos [.tick 0 0]) body)).2 ≠ .outOfFuel ∧
+    (execCmd 20 {} (.whileLoop false (condNeg [.tick 0 0]) body)).1.trace = [(1, 0)] := by
+  refine ⟨fun g t k h => list_after_st 0 _ g t k h, by decide, by decide⟩
+
+end Laws
+
+/-! ### wave 3, second half: ill-formed argument vectors of the control-flow built-ins -/
+
+section Illformed
+open Builtins
+
+/-- ill-formed argument vectors need no constructor of their own: whenever `break`/`continue`/`return`/`exit`
+    reports an error — any argument vector, called directly (`special = true`) or through `command`
+    (`special = false`: the innermost built-in frame is `command`'s, not special) — `execute_builtin` running the
+    transcribed `main` is exactly the executor model's `specialErr wrapped status` (C10's shell-error command, which
+    the generator renders as `return 1 2`, `exit x`, `break 0`, `continue x`, …), with the status the transcription
+    computes -/
+theorem illformed_builtin_is_specialErr (fuel : Nat) (s : St) (special isBreak p : Bool) (args : List Str) :
+    ((breakMain isBreak p (.builtin special :: s.stack) args).exitStatus ≠ 0 →
+      runBuiltin s special (fun st => breakMain isBreak p st args) =
+        execCmd (fuel+1) s (.specialErr (!special) (breakMain isBreak p (.builtin special :: s.stack) args).exitStatus)) ∧
+    (returnMain p (.builtin special :: s.stack) s.status args = reportError (.builtin special :: s.stack) →
+      runBuiltin s special (fun st => returnMain p st s.status args) = execCmd (fuel+1) s (.specialErr (!special) 2)) ∧
+    (exitMain p (.builtin special :: s.stack) s.status args = reportError (.builtin special :: s.stack) →
+      runBuiltin s special (fun st => exitMain p st s.status args) = execCmd (fuel+1) s (.specialErr (!special) 2)) := by
+  refine ⟨?_, ?_, ?_⟩
+  · intro hne
+    rcases break_main_cases isBreak p (.builtin special :: s.stack) args with ⟨n, _, _, _, h⟩ | ⟨_, hd⟩
+    · rw [h] at hne; exact absurd rfl hne
+    · simp only [runBuiltin, execCmd, hd, currentBuiltin_top]
+      cases special <;> simp
+  · intro h
+    simp only [runBuiltin, execCmd, h, reportError, reportDivert, currentBuiltin_top, Generated.ExecTables.ERROR]
+    cases special <;> simp
+  · intro h
+    simp only [runBuiltin, execCmd, h, reportError, reportDivert, currentBuiltin_top, Generated.ExecTables.ERROR]
+    cases special <;> simp
+
+/-- not vacuous: the eight argument vectors the generator writes for `specialErr _ 2` all are errors with status 2 -/
+example :
+    (breakMain true false [.builtin true, .loop] [['1'], ['2']]).exitStatus = 2 ∧
+    (breakMain true false [.builtin true, .loop] [['0']]).exitStatus = 2 ∧
+    (breakMain false false [.builtin false, .builtin true, .loop] [['x']]).exitStatus = 2 ∧
+    (breakMain false false [.builtin true, .loop] [['0']]).exitStatus = 2 ∧
+    returnMain false [.builtin true] 7 [['1'], ['2']] = reportError [.builtin true] ∧
+    returnMain false [.builtin true] 7 [['x']] = reportError [.builtin true] ∧
+    exitMain false [.builtin false, .builtin true] 7 [['1'], ['2']] = reportError [.builtin false, .builtin true] ∧
+    exitMain false [.builtin true] 7 [['x']] = reportError [.builtin true] := by
+  refine ⟨?_, ?_, ?_, ?_, ?_, ?_, ?_, ?_⟩ <;> decide
+
+/-- the suspended-jobs guard of `exit` (docs/src/builtins/exit.md: "in an interactive shell, if there are suspended
+    jobs, the built-in prints a warning and refuses to exit … returns exit status 1 without exiting"; `-f` overrides):
+    for every argument vector, stack and `$?`, `exit` either does what the unguarded built-in does, or it refuses —
+    status 1, `Interrupt(None)` — and it refuses only where the unguarded built-in would have exited, and only in
+    an interactive shell (option on, not in a subshell) that is not `posixlycorrect`, has the guard configured and
+    a stopped job; outside such a shell the guard is invisible (`exitMain` is that instance) -/
+theorem exit_guard (g : ExitGuard) (p : Bool) (stack : List Frame) (status : Nat) (args : List Str) :
+    (exitMainG g p stack status args = exitMain p stack status args ∨
+      (exitMainG g p stack status args = ⟨1, .break_ (.interrupt none)⟩ ∧
+        (∃ es, exitMain p stack status args = ⟨status, .break_ (.exit es)⟩) ∧
+        g.interactive = true ∧ stack.contains .subshell = false ∧ g.posix = false ∧ g.configured = true ∧
+        g.stoppedJob = true)) ∧
+    ((isInteractive g.interactive stack = false ∨ g.posix = true ∨ g.configured = false ∨ g.stoppedJob = false) →
+      exitMainG g p stack status args = exitMain p stack status args) := by
+  unfold exitMainG exitMain
+  cases Args.parseArguments exitSpecs (modeWithEnv p) args with
+  | error e => simp
+  | ok x =>
+    obtain ⟨options, operands⟩ := x
+    simp only
+    cases statusOperand operands with
+    | none => simp
+    | some es =>
+      simp only
+      constructor
+      · by_cases hc : (!(options.any fun o => o.spec.short == some 'f') && isInteractive g.interactive stack &&
+            !g.posix && g.configured && g.stoppedJob) = true
+        · right
+          simp only [hc, if_true]
+          simp only [Bool.and_eq_true, Bool.not_eq_true', isInteractive] at hc
+          refine ⟨by simp [Generated.ExecTables.FAILURE], ⟨es, rfl⟩, ?_⟩
+          simp_all
+        · left; simp only [hc]; simp
+      · intro h
+        have : (!(options.any fun o => o.spec.short == some 'f') && isInteractive g.interactive stack &&
+            !g.posix && g.configured && g.stoppedJob) = false := by
+          rcases h with h | h | h | h <;> simp [h]
+        simp [this]
+
+/-- not vacuous: an interactive shell with a stopped job — `exit 3` refuses (again and again: the built-in keeps no
+    memory of an earlier refusal), `exit -f 3` and `exit --force` go through, `exit 1 2` is the syntax error first,
+    `( exit 3 )` and a `posixlycorrect` shell are not guarded -/
+example :
+    let g : ExitGuard := { interactive := true, configured := true, stoppedJob := true }
+    exitMainG g false [.builtin true] 9 [['3']] = ⟨1, .break_ (.interrupt none)⟩ ∧
+    exitMainG g false [.builtin true] 1 [['3']] = ⟨1, .break_ (.interrupt none)⟩ ∧
+    exitMainG g false [.builtin true] 9 [['-', 'f'], ['3']] = ⟨9, .break_ (.exit (some 3))⟩ ∧
+    exitMainG g false [.builtin true] 9 [['-', '-', 'f', 'o', 'r', 'c', 'e']] = ⟨9, .break_ (.exit none)⟩ ∧
+    exitMainG g false [.builtin true] 9 [['1'], ['2']] = ⟨2, .break_ (.interrupt none)⟩ ∧
+    exitMainG g false [.builtin true, .subshell] 9 [['3']] = ⟨9, .break_ (.exit (some 3))⟩ ∧
+    exitMainG { g with posix := true } false [.builtin true] 9 [['3']] = ⟨9, .break_ (.exit (some 3))⟩ := by
+  refine ⟨?_, ?_, ?_, ?_, ?_, ?_, ?_⟩ <;> decide
+
+end Illformed
+
+/-! ### wave 3, third pass: `command -v` / `command -V` / `type` (Exec/Identify.lean) -/
+
+section IdentifyThms
+open Search Identify
+
+theorem searchPath_exec (env : Search.Env) (name p : Str) (h : searchPath env name = some p) :
+    env.isExecutableFile p = true := by
+  unfold searchPath at h
+  exact List.find?_some h
+
+/-- `command -v` / `command -V` / `type` answer what a simple command of that name would do — for every table of
+    built-ins, function set, `$PATH`, file system, option setting and alias set, and every name that is neither a
+    keyword nor an alias (those are reported as such, before any search):
+    a function iff the shell would call the function; a built-in of type `t` iff it would run that built-in (for a
+    substitutive one, with the absolute path of the file found in `$PATH`); an external utility at `p` iff it would
+    `execve` an executable file whose absolute path is `p`; and "not found" — nothing printed, exit status 1 —
+    iff the command would fail with a non-zero status without running anything, or would try to execute a file
+    that is not executable -/
+theorem identify_agrees_with_execution (e : IdEnv) (name : Str)
+    (hk : isKeyword name = false) (ha : e.aliases.lookup name = none) :
+    match identify e name with
+    | (some (.target (.builtin t _ p)), st) =>
+      st = 0 ∧ ∃ p', runSimple e.env name = .builtin t p' ∧ p = (if t = .substitutive then absPath p' else p')
+    | (some (.target .function), st) => st = 0 ∧ runSimple e.env name = .function
+    | (some (.target (.external p)), st) =>
+      st = 0 ∧ ∃ p', runSimple e.env name = .exec p' ∧ e.env.isExecutableFile p' = true ∧ p = absPath p'
+    | (none, st) =>
+      st = 1 ∧ ((∃ n, runSimple e.env name = .status n ∧ n ≠ 0) ∨
+        (∃ p', runSimple e.env name = .exec p' ∧ e.env.isExecutableFile p' = false))
+    | (some _, _) => False := by
+  simp only [identify, categorize, hk, ha, search, runSimple, Bool.false_eq_true, if_false]
+  cases hc : Search.classify e.env name with
+  | function => simp [normalizeTarget, Generated.ExecTables.SUCCESS]
+  | builtin t a p0 =>
+    simp only
+    cases hr : resolveBuiltin e.env name t a with
+    | error u =>
+      simp only [Generated.ExecTables.FAILURE]
+      refine ⟨trivial, Or.inl ⟨_, rfl, ?_⟩⟩
+      cases u <;> simp [Unusable.exitStatus, Generated.ExecTables.NOT_FOUND, Generated.ExecTables.NOEXEC]
+    | ok p =>
+      simp only
+      by_cases hs : t = .substitutive
+      · subst hs
+        have hp : e.env.isExecutableFile p = true := by
+          unfold resolveBuiltin at hr
+          cases a with
+          | notPortable => simp at hr
+          | available =>
+            simp only [if_true] at hr
+            cases hsp : searchPath e.env name with
+            | none => simp [hsp] at hr
+            | some q => simp [hsp] at hr; subst hr; exact searchPath_exec _ _ _ hsp
+        simp [normalizeTarget, hp, Generated.ExecTables.SUCCESS]
+      · have hp : p = [] := by
+          unfold resolveBuiltin at hr
+          cases a with
+          | notPortable => simp at hr
+          | available => simp [hs] at hr; exact hr
+        subst hp
+        cases t <;> simp_all [normalizeTarget, Generated.ExecTables.SUCCESS]
+  | external p0 =>
+    simp only
+    by_cases hsl : name.contains '/' = true
+    · simp only [hsl, if_true]
+      by_cases hx : e.env.isExecutableFile name = true
+      · simp [normalizeTarget, hx, Generated.ExecTables.SUCCESS]
+      · simp [normalizeTarget, hx, Generated.ExecTables.FAILURE]
+    · simp only [hsl, Bool.false_eq_true, if_false]
+      cases hsp : searchPath e.env name with
+      | none => simp [Generated.ExecTables.FAILURE, Generated.ExecTables.NOT_FOUND]
+      | some q =>
+        have hq := searchPath_exec _ _ _ hsp
+        simp [normalizeTarget, hq, Generated.ExecTables.SUCCESS]
+
+/-- the order of `categorize`: a keyword is reported as a keyword whatever else bears the name, then an alias, then
+    the command search; the exit status is 0 exactly when something is printed, and 1 otherwise -/
+theorem identify_precedence (e : IdEnv) (name : Str) :
+    (isKeyword name = true → identify e name = (some .keyword, 0)) ∧
+    (isKeyword name = false → ∀ r, e.aliases.lookup name = some r → identify e name = (some (.alias name r), 0)) ∧
+    ((identify e name).2 = 0 ↔ (identify e name).1.isSome = true) ∧
+    ((identify e name).2 = 0 ∨ (identify e name).2 = 1) := by
+  refine ⟨?_, ?_, ?_, ?_⟩
+  · intro h; simp [identify, categorize, h, Generated.ExecTables.SUCCESS]
+  · intro h r hr; simp [identify, categorize, h, hr, Generated.ExecTables.SUCCESS]
+  · unfold identify; cases categorize e name <;> simp [Generated.ExecTables.SUCCESS, Generated.ExecTables.FAILURE]
+  · unfold identify; cases categorize e name <;> simp [Generated.ExecTables.SUCCESS, Generated.ExecTables.FAILURE]
+
+/-- not vacuous: `if` defined as a function and as an alias is still a keyword; `na` with an alias, a function and a
+    file `/rel/na` behind the relative `$PATH` entry `rel`: the alias, then (without it) the function, then the
+    absolute path `/rel/na`; a name with a slash that is not executable is not found although the shell would try to execute it -/
+example :
+    let env : Search.Env :=
+      { functions := ["if".toList, "na".toList], path := PathVal.scalar "rel".toList, execs := ["/rel/na".toList] }
+    identify { env := env, aliases := [("if".toList, "x".toList)] } "if".toList = (some .keyword, 0) ∧
+    identify { env := env, aliases := [("na".toList, "nb".toList)] } "na".toList =
+      (some (.alias "na".toList "nb".toList), 0) ∧
+    identify { env := env } "na".toList = (some (.target .function), 0) ∧
+    identify { env := { env with functions := [] } } "na".toList = (some (.target (.external "/rel/na".toList)), 0) ∧
+    identify { env := env } "x/y".toList = (none, 1) ∧
+    Search.runSimple env "x/y".toList = .exec "x/y".toList := by
+  refine ⟨?_, ?_, ?_, ?_, ?_, ?_⟩ <;> decide
+
+end IdentifyThms
+
+/-! ### wave 3, third pass: pipeline stages that end by `exit` / `return` -/
+
+/-- a stage of a pipeline is a subshell: when it ends by `exit n` or `return n` — executed at any depth inside the
+    stage, the divert is what the stage's command returns — its exit status is the operand `n`; without an operand it
+    is the `$?` at that point; and a stage that ends normally or by `break`/`continue` has the `$?` it ended with.
+    (`pipeline_status` then gives the pipeline's status from these.) -/
+theorem stage_status_is_operand (fuel : Nat) (s : St) (c : Cmd) (rest : List Cmd) :
+    (memberStatuses (fuel+1) s (c :: rest)).head? =
+      some (match (execCmd fuel (s.push .subshell) c).2 with
+        | .break_ (.exit (some n)) => n
+        | .break_ (.return_ (some n)) => n
+        | .break_ (.interrupt (some n)) => n
+        | .break_ (.abort (some n)) => n
+        | _ => (execCmd fuel (s.push .subshell) c).1.status) := by
+  simp only [memberStatuses, List.head?_cons]
+  generalize execCmd fuel (s.push .subshell) c = x
+  obtain ⟨c1, r⟩ := x
+  cases r with
+  | continue_ => rfl
+  | outOfFuel => rfl
+  | break_ d =>
+    cases d with
+    | continue_ k => rfl
+    | break_ k => rfl
+    | return_ e => cases e <;> rfl
+    | interrupt e => cases e <;> rfl
+    | exit e => cases e <;> rfl
+    | abort e => cases e <;> rfl
+
+/-- not vacuous: `{ if st 0; then st 3; exit 7; fi; st 0; } | st 0` under pipefail is 7 (the operand, from two levels
+    down), `… exit; …` is 3 (`$?` at that point), and `{ f0() { return 9; }; f0; st 0; } | st 0` is 0: `return`
+    leaves only the function -/
+example :
+    let it (c : Cmd) : Item := .mk (.mk false [c]) []
+    let stage (e : Option Nat) : Cmd := .group [it (.ifc [it (.st 0)] [it (.st 3), it (.exit e)] [] none), it (.st 0)]
+    (execCommands 20 { pipefail := true } [stage (some 7), .st 0]).1.status = 7 ∧
+    (execCommands 20 { pipefail := true } [stage none, .st 0]).1.status = 3 ∧
+    (execCommands 20 { pipefail := true }
+      [.group [it (.fundef (.f 0) (.group [it (.ret (some 9))])), it (.call (.f 0) 0), it (.st 0)], .st 0]).1.status = 0 := by
+  decide
 
 end YashModel.Exec
